@@ -60,8 +60,9 @@ type vmodel struct {
 
 func grid(w, h int) [][]uint8 {
 	g := make([][]uint8, h)
+	flat := make([]uint8, w*h)
 	for y := range g {
-		g[y] = make([]uint8, w)
+		g[y] = flat[y*w : (y+1)*w : (y+1)*w]
 	}
 	return g
 }
